@@ -4,6 +4,8 @@ package slip
 
 import (
 	"fmt"
+	"math"
+	"math/big"
 	"time"
 	"unsafe"
 )
@@ -82,7 +84,11 @@ func SimpleObject(val any) (obj Object) {
 		obj = Fixnum(tv)
 
 	case uint:
-		obj = Fixnum(tv)
+		if tv <= math.MaxInt64 {
+			obj = Fixnum(tv)
+		} else {
+			obj = (*Bignum)(new(big.Int).SetUint64(uint64(tv)))
+		}
 	case uint8:
 		obj = Octet(tv)
 	case uint16:
@@ -90,7 +96,11 @@ func SimpleObject(val any) (obj Object) {
 	case uint32:
 		obj = Fixnum(tv)
 	case uint64:
-		obj = Fixnum(tv)
+		if tv <= math.MaxInt64 {
+			obj = Fixnum(tv)
+		} else {
+			obj = (*Bignum)(new(big.Int).SetUint64(tv))
+		}
 
 	case float32:
 		obj = SingleFloat(tv)
